@@ -254,6 +254,24 @@ func synthCorr(c *Ctx, corr *Batch, r *Rng, doc []byte) int {
 				src[p] = synthBytes[r.Intn(len(synthBytes))]
 			}
 		}
+		// Raw NUL bytes reach the reader only in the block phase, where the buffer is PADDED (every NUL run a multiple of
+		// three, so the reader's virtual position stays in 0..2); Rewrite never sees one, because NextBlock fills them
+		// in. A run of another length makes Go index nullReplacementString[3] and panic - a path no parser output
+		// reaches, and one the (pure, total) reader model does not mark. Keep the synthetic runs padded-shaped.
+		for i := 0; i < len(src); {
+			if src[i] != 0 {
+				i++
+				continue
+			}
+			j := i
+			for j < len(src) && src[j] == 0 {
+				j++
+			}
+			for k := j - (j-i)%3; k < j; k++ {
+				src[k] = 'x'
+			}
+			i = j
+		}
 		var holders []*wnode
 		var walk func(x *wnode)
 		walk = func(x *wnode) {
